@@ -141,7 +141,8 @@ class MagicNumberRule(MultiLanguageLintRule):  # thailint: ignore[srp]
         if not context.file_path:
             return False
 
-        file_path = Path(context.file_path)
+        # Ignore patterns name places inside the project, however the path was spelled
+        file_path = Path(project_relative_path(context))
         return any(self._matches_pattern(file_path, pattern) for pattern in config.ignore)
 
     def _matches_pattern(self, file_path: Path, pattern: str) -> bool:
